@@ -592,4 +592,142 @@ Proof. intros H Horth. revert t H. induction fuel as [|f IH]; intros t H Hrng; s
         -- right; left. apply imem_In. exact Hd.
         -- right; right. apply imem_In. exact Hd.
 Qed.
+(* ---------- what exactly goes wrong when the remaining indices coincide ----------
+   U_pq U_pq -> 1: if q is neither a target nor present in the rest of the
+   term, the value of the input is the value of the output times the number of
+   orbitals in the range of q. *)
+Definition kcount {A} (l : list A) : K S := ksum l (fun _ => 1).
+Lemma ksum_const {A} (l : list A) c : ksum l (fun _ => c) = kcount l * c.
+Proof. unfold kcount. induction l; simpl; [ring|rewrite IHl; ring]. Qed.
+
+Theorem unitary_step_square_value name tg t p q t' r0 :
+  unitary_step name tg t p q q t' ->
+  same_sort q p = true ->
+  orthogonal name (irange S T p) ->
+  (forall x, In x tg -> In (r0 x) (irange S T x)) ->
+  ~ In q tg -> ~ In q (term_idx t') ->
+  eval_term S T tg r0 t = kcount (irange S T q) * eval_term S T tg r0 t'.
+Proof. intros Hstep Sq Horth Hrng Hqtg Hqt'.
+  remember q as r eqn:Er in Hstep at 2.
+  destruct Hstep as [c fs u1 u2 rest pos p q r HP N1 N2 Hidx Hptg Hcnt]. subst r.
+  assert (Eb : build c q q rest = Term c rest) by (unfold build, mk_delta; rewrite index_eqb_refl; reflexivity).
+  rewrite Eb in *. unfold term_idx in Hqt'; cbn [tfacs] in Hqt'.
+  set (fs0 := (ATens u1, false) :: (ATens u2, false) :: rest) in *.
+  assert (Hc0 : icount p (mono_idx fs0) = 2%nat)
+    by (rewrite <- (icount_perm p _ _ (mono_idx_perm _ _ HP)); exact Hcnt).
+  assert (Hfacts : p <> q /\ ~ In p (mono_idx rest)).
+  { unfold fs0 in Hc0. rewrite !mono_idx_cons, !fac_idx_tens, !icount_app in Hc0.
+    destruct pos; destruct Hidx as [I1 I2]; rewrite I1, I2 in Hc0; simpl in Hc0;
+      rewrite index_eqb_refl in Hc0;
+      destruct (index_eqb p q) eqn:E1; simpl in Hc0; try lia;
+      apply index_eqb_neq in E1; split; auto; apply icount_zero; lia. }
+  destruct Hfacts as [Hpq Hprest].
+  assert (Hidx0 : forall x, In x (mono_idx fs0) <-> x = p \/ x = q \/ In x (mono_idx rest)).
+  { intros x. unfold fs0. rewrite !mono_idx_cons, !fac_idx_tens, !in_app_iff.
+    destruct pos; destruct Hidx as [I1 I2]; rewrite I1, I2; simpl; intuition. }
+  set (xs := contracted tg (Term c rest)).
+  assert (HPc : Permutation (contracted tg (Term c fs)) (q :: xs ++ [p])).
+  { apply NoDup_Permutation.
+    - apply contracted_NoDup.
+    - constructor.
+      + rewrite in_app_iff. unfold xs. rewrite contracted_In. unfold term_idx; cbn [tfacs].
+        simpl. intros [[H _]|[H|[]]]; [tauto|congruence].
+      + apply (Permutation_NoDup (Permutation_cons_append xs p)).
+        constructor; [|apply contracted_NoDup]. unfold xs. rewrite contracted_In.
+        unfold term_idx; cbn [tfacs]. tauto.
+    - intros x. simpl. rewrite in_app_iff. unfold xs. rewrite !contracted_In.
+      unfold term_idx; cbn [tfacs].
+      assert (Hx : In x (mono_idx fs) <-> In x (mono_idx fs0)).
+      { split; apply Permutation_in; [|apply Permutation_sym]; apply mono_idx_perm; exact HP. }
+      rewrite Hx, Hidx0. simpl. split.
+      + intros [[->|[->|H]] Hn]; auto.
+      + intros [<-|[[H Hn]|[<-|[]]]]; auto. }
+  unfold eval_term at 1.
+  rewrite (sum_over_perm S T (term_idx (Term c fs)) _ _ _ r0
+             (fun e1 e2 He => term_val_agree S T (Term c fs) e1 e2 He)
+             (contracted_NoDup tg (Term c fs)) HPc).
+  cbn [sum_over].
+  set (c1 := carrier_of u1). set (c2 := carrier_of u2).
+  set (A := fun o x : nat => if pos then mat name c1 x o else mat name c1 o x).
+  set (B := fun o y : nat => if pos then mat name c2 y o else mat name c2 o y).
+  set (F := fun e : env => ofQ S c * mono_val S T e rest).
+  assert (HF : depends_on S (mono_idx rest) F).
+  { intros e1 e2 He. unfold F. rewrite (mono_val_agree S T rest e1 e2 He). reflexivity. }
+  rewrite (ksum_ext S _ _ (fun _ => eval_term S T tg r0 (Term c rest))); [apply ksum_const|].
+  intros o Ho.
+  rewrite (sum_over_ext S T _ _ (fun e => A (e p) (e q) * B (e p) (e q) * F e)).
+  2:{ intros e. unfold term_val; simpl. rewrite (mono_val_perm e _ _ HP).
+      unfold fs0, mono_val; simpl. fold (mono_val S T e rest). unfold fac_val; simpl.
+      unfold A, B, F, c1, c2.
+      destruct pos; destruct Hidx as [I1 I2];
+        rewrite (tens_val_mat u1 _ _ e I1), (tens_val_mat u2 _ _ e I2), N1, N2; ring. }
+  assert (Rq : irange S T q = irange S T p) by (apply irange_same_sort; exact Sq).
+  rewrite (orth_sum_rewrite A B (mono_idx rest) xs p q q F (upd r0 q o)); auto.
+  - unfold eval_term. fold xs.
+    rewrite (sum_over_ext S T xs _ F) by (intros e; rewrite dval_refl; ring).
+    change (fun r' : env => term_val S T r' (Term c rest)) with F.
+    apply (sum_over_agree S T (mono_idx rest)); [exact HF|].
+    intros x Hx _. unfold upd. destruct (index_eqb x q) eqn:E; [|reflexivity].
+    apply index_eqb_eq in E; subst. tauto.
+  - intros x y Hx Hy. unfold A, B. destruct (Horth c1 c2 x y Hx Hy) as [O1 O2].
+    destruct pos; assumption.
+  - right. unfold upd. rewrite index_eqb_refl. exact Ho.
+  - right. unfold upd. rewrite index_eqb_refl. exact Ho.
+Qed.
+(* ---------- Einstein convention: a regular step keeps the target indices ---------- *)
+Lemma einstein_targets_In t x : In x (einstein_targets t) <-> icount x (term_idx t) = 1%nat.
+Proof. unfold einstein_targets. rewrite filter_In, inodup_In, Nat.eqb_eq. split; [tauto|].
+  intros H. split; [|exact H]. apply icount_pos. lia. Qed.
+Lemma existsb_perm {A} (f : A -> bool) l l' : Permutation l l' -> existsb f l = existsb f l'.
+Proof. induction 1; simpl; try congruence.
+  - destruct (f y), (f x); reflexivity. Qed.
+
+(* if the two remaining indices differ and no equal delta is already present
+   (it would be absorbed, d**2 -> d), every index but p keeps its number of
+   occurrences, so the Einstein targets of the result are those of the input *)
+Theorem einstein_targets_step name tg t p q r t' :
+  unitary_step name tg t p q r t' ->
+  q <> r -> delta_zero q r = false -> existsb (is_delta_fac q r) (tfacs t) = false ->
+  forall x, In x (einstein_targets t') <-> In x (einstein_targets t).
+Proof. intros Hstep Hqr Hz Hnd x.
+  destruct Hstep as [c fs u1 u2 rest pos p q r HP N1 N2 Hidx Hptg Hcnt].
+  cbn [tfacs] in Hnd. rewrite (existsb_perm _ _ _ HP) in Hnd. cbn [existsb is_delta_fac orb] in Hnd.
+  rewrite !einstein_targets_In. unfold term_idx at 2; cbn [tfacs].
+  rewrite (icount_perm x _ _ (mono_idx_perm _ _ HP)).
+  assert (Eb : term_idx (build c q r rest) =
+               (if idx_leb q r then [q; r] else [r; q]) ++ mono_idx rest).
+  { unfold build, mk_delta. apply index_eqb_neq in Hqr. rewrite Hqr, Hz. cbv iota. unfold factor in *. rewrite Hnd.
+    unfold term_idx; cbn [tfacs]. rewrite mono_idx_cons. unfold fac_idx; cbn [fst].
+    destruct (idx_leb q r); reflexivity. }
+  rewrite Eb. rewrite !mono_idx_cons, !fac_idx_tens, !icount_app.
+  assert (Hp2 : icount p (mono_idx ((ATens u1, false) :: (ATens u2, false) :: rest)) = 2%nat)
+    by (rewrite <- (icount_perm p _ _ (mono_idx_perm _ _ HP)); exact Hcnt).
+  rewrite !mono_idx_cons, !fac_idx_tens, !icount_app in Hp2.
+  destruct (index_eq_dec x p) as [->|Hxp].
+  - (* p: twice before, gone afterwards *)
+    destruct pos; destruct Hidx as [I1 I2]; rewrite I1, I2 in *; simpl in *;
+      rewrite index_eqb_refl in *;
+      destruct (index_eqb p q) eqn:E1; destruct (index_eqb p r) eqn:E2; simpl in *; try lia;
+      destruct (idx_leb q r); simpl; rewrite ?E1, ?E2; simpl; lia.
+  - apply index_eqb_neq in Hxp.
+    destruct pos; destruct Hidx as [I1 I2]; rewrite I1, I2; simpl; rewrite Hxp;
+      destruct (idx_leb q r); simpl; lia. Qed.
+
+(* value preservation of a regular step under the Einstein convention, each
+   side read with its own Einstein targets *)
+Corollary unitary_step_sound_einstein name t p q r t' r0 :
+  unitary_step name (einstein_targets t) t p q r t' ->
+  same_sort q p = true -> same_sort r p = true ->
+  orthogonal name (irange S T p) ->
+  (forall x, In x (einstein_targets t) -> In (r0 x) (irange S T x)) ->
+  q <> r -> existsb (is_delta_fac q r) (tfacs t) = false ->
+  eval_term S T (einstein_targets t) r0 t = eval_term S T (einstein_targets t') r0 t'.
+Proof. intros Hstep Sq Sr Horth Hrng Hqr Hnd.
+  assert (Hz : delta_zero q r = false).
+  { apply delta_zero_same_sort. apply same_sort_eq in Sq, Sr. destruct Sq as [A1 A2], Sr as [B1 B2].
+    unfold same_sort. rewrite A1, A2, B1, B2.
+    apply andb_true_iff; split; [apply space_eqb_eq|apply spin_eqb_eq]; reflexivity. }
+  rewrite (unitary_step_sound name _ t p q r t' r0 Hstep Sq Sr Horth Hrng (or_introl Hqr)).
+  apply eval_term_tg_set. intros x. symmetry.
+  apply (einstein_targets_step name _ t p q r t' Hstep Hqr Hz Hnd). Qed.
 End Sums.
